@@ -56,6 +56,9 @@ Clauses(r) ==
            <<"(f**e)(x)", Same(r.po, ApplyTimes(f, XS, r.e))>>,
            <<"cascade(x)",  Same(r.casco, Apply(f, go))>>,
            <<"parallel(x)", Same(r.paro, LAddSeq(fo, go))>>,
+           \* banks inside banks keep their structure: Cascade(Parallel(f, g), f) and Parallel(Cascade(f, g), g)
+           <<"cascade-of-parallel(x)", "nesto" \in DOMAIN r => Same(r.nesto, Apply(f, LAddSeq(fo, go)))>>,
+           <<"parallel-of-cascade(x)", "nest2o" \in DOMAIN r => Same(r.nest2o, LAddSeq(Apply(g, fo), go))>>,
            <<"cascade-polys",  QEquiv(Obs(r, "cascn", "cascd"), QMul(f, g))>>,
            <<"parallel-polys", QEquiv(Obs(r, "parn", "pard"), QAdd(f, g))>>,
            <<"model",    SystemPair(f, g) /\ RunsLikeFilter(FMul(f, g))>> >>
